@@ -105,6 +105,15 @@ SyncB == "::core::marker::Sync"
 SendB == "::core::marker::Send"
 
 \* ---- fn and mod mode
+\* module mode: the trait is generated one module further in than the attribute is written, so a visibility relative to the
+\* attribute's place is re-based by one `super` (since a "fix:" commit; it used to be copied verbatim: `pub(super) T` made the
+\* re-export fail, `pub(self) T` made the trait private to the module itself).  Compact token text, as the projector prints it.
+ModTraitVis(in) ==
+  CASE in.tvis = "" -> "pub(super)"
+    [] in.tvisp.head = "self" /\ in.tvisp.rest = "" -> "pub(super)"
+    [] in.tvisp.head = "self" -> "pub(insuper" \o in.tvisp.rest \o ")"
+    [] in.tvisp.head = "super" -> "pub(insuper::super" \o in.tvisp.rest \o ")"
+    [] OTHER -> in.tvis
 PubFns(in) == IF in.target = "mod" THEN SelectSeq(in.fns, LAMBDA f : f.vis # "") ELSE in.fns
 \* generics lifted to the trait: all type / const parameters, minus the named dependency parameter
 Lifted(f, d) == IF d.kind = "generic" /\ d.named THEN f.ngen - 1 ELSE f.ngen
@@ -124,7 +133,7 @@ FnModItems(in, o) ==
                 \o (IF conc THEN << A("entrait", FALSE, "(unimock=false,mockall=false)") >> ELSE << >>)
                 \o (IF MockallAttr(o) THEN << A("mockall", Gate(o), "") >> ELSE << >>)
                 \o ReusedOnTrait(in.sub)
-      tvis == IF in.target = "mod" /\ in.tvis = "" THEN "pub(super)" ELSE in.tvis
+      tvis == IF in.target = "mod" THEN ModTraitVis(in) ELSE in.tvis
       tline == TraitLine(tvis, in.tname, tattrs, ngen, << >>, [i \in DOMAIN fs |-> TraitMethodOfFn(fs[i], nd, "self", in.sub, o, withcfg)])
       byvalue == \E i \in DOMAIN fs : ~nd /\ FnRecv(fs[i], nd) = "value"
       self == IF conc THEN "concrete:" \o fs[1].first.basetext ELSE IF Mockable(o) THEN "implT" ELSE "blanket"
@@ -149,9 +158,11 @@ DelegCall(e, m, anyasync, implt) ==
   CASE implt # "" /\ e.delegate = "custom" -> Call("Target", "self", m.nparams, m.async)
     [] implt # "" /\ e.delegate = "ref"    -> Call("AsRef-dyn" \o plus, "self", m.nparams, m.async)
     [] implt # "" /\ e.delegate = "borrow" -> Call("Borrow-dyn" \o plus, "self", m.nparams, m.async)
-    [] implt = "" /\ e.delegate = "ref"    -> Call("as_ref.as_ref", "-", m.nparams, m.async)
-    [] implt = "" /\ e.delegate = "borrow" -> Call("as_ref.borrow", "-", m.nparams, m.async)
-    [] OTHER -> Call(IF m.recv = "value" THEN "into_inner" ELSE "as_ref", "-", m.nparams, m.async)
+    \* (the inner value is reached by path - `<::entrait::Impl<T> as ::core::convert::AsRef<T>>::as_ref(self)`,
+    \*  `::entrait::Impl::<T>::into_inner(self)` - since a "fix:" commit; it used to be method syntax, `self.as_ref()`)
+    [] implt = "" /\ e.delegate = "ref"    -> Call("Impl::as_ref>AsRef-dyn", "-", m.nparams, m.async)
+    [] implt = "" /\ e.delegate = "borrow" -> Call("Impl::as_ref>Borrow-dyn", "-", m.nparams, m.async)
+    [] OTHER -> Call(IF m.recv = "value" THEN "Impl::into_inner" ELSE "Impl::as_ref", "-", m.nparams, m.async)
 TraitItems(in, p) ==
   LET o == p.opts
       e == Effective(p)
@@ -168,9 +179,13 @@ TraitItems(in, p) ==
       \* the generated delegation-target trait: async_trait is written once by the caller and once by gen_trait_def
       rk == IF e.delegate = "custom" THEN "static" ELSE "dyn"
       t2 == TraitLine(tr.vis, implt, asub \o asub, tr.ngen + 1, << "'static" >>, [i \in DOMAIN tr.methods |-> TraitMethod(tr.methods[i], asubk, o, rk)])
-      t3 == TraitLine("pub", p.delegname, << >>, 1, << >>, << >>)
+      \* (the delegation trait goes with the other two; it was `pub` whatever the trait's visibility before a "fix:" commit)
+      t3 == TraitLine(tr.vis, p.delegname, << >>, 1, << >>, << >>)
       trargs == tr.name \o tr.gargs
-      app == << SyncB, "'static" >> \o
+      \* an async method with a by-value receiver moves the Impl<T> into its future: T is Send unless ?Send (since a "fix:" commit;
+      \* function and module inputs always did that, see FnModItems)
+      movesself == FutureSend(o) /\ \E i \in DOMAIN tr.methods : tr.methods[i].async /\ tr.methods[i].recv = "value"
+      app == << SyncB >> \o (IF movesself THEN << SendB >> ELSE << >>) \o << "'static" >> \o
              (CASE implt # "" /\ e.delegate = "custom" -> << p.delegname \o "<EntraitT>", SyncB, "'static" >>
                 [] implt # "" /\ e.delegate \in {"ref", "borrow"} ->
                      << (IF e.delegate = "ref" THEN "::core::convert::AsRef" ELSE "::core::borrow::Borrow") \o "<dyn" \o implt \o "<EntraitT>"
